@@ -129,13 +129,44 @@ def gen_side(r, depth, allow_abs):
     if allow_abs and r.random() < 0.45:
         for _ in range(r.randint(1, 2)):
             parts.append(("abs", r.choice([1, 1, 1, -1]), r.choice([None, None, 2, 3, 0.5]), gen_linear(r, 0)))
+    if allow_abs and depth > 0 and r.random() < 0.2:
+        # a constant factor in front of a parenthesised group that contains absolute-value terms with their own coefficients
+        inner = [("lin", gen_linear(r, 0))]
+        for _ in range(r.randint(1, 2)):
+            inner.append(("abs", 1, r.choice([None, 2, 3, 0.5]), gen_linear(r, 0)))
+        if r.random() < 0.3:
+            inner.append(inner[-1])  # the same |t| twice inside the group
+        r.shuffle(inner)
+        parts.append(("group", 1, r.choice([2, 3, 0.5, 4]), inner))
     r.shuffle(parts)
     return parts
+
+
+def flatten_side(parts):
+    """the same side without groups: the factor of a group multiplied into its members (meaning only)"""
+    out = []
+    for pt in parts:
+        if pt[0] != "group":
+            out.append(pt)
+            continue
+        for q in flatten_side(pt[3]):
+            if q[0] == "lin":
+                out.append(("lin", [("paren", pt[1], pt[2], q[1], True)]))
+            else:
+                out.append(("abs", pt[1] * q[1], float((Fraction(q[2]) if q[2] is not None else Fraction(1)) * Fraction(pt[2])), q[3]))
+    return out
 
 
 def side_render(r, parts, sp):
     out = ""
     for i, pt in enumerate(parts):
+        if pt[0] == "group":
+            body = _num_str(r, pt[2]) + ("*" if r.random() < 0.3 else "") + "(" + side_render(r, pt[3], sp) + ")"
+            if i == 0:
+                out += ("-" if pt[1] < 0 else "") + body
+            else:
+                out += ((" - " if sp else "-") if pt[1] < 0 else (" + " if sp else "+")) + body
+            continue
         if pt[0] == "lin":
             body = lin_render(r, pt[1], sp)
             neg = body.startswith("-")
@@ -173,7 +204,7 @@ def c09_build(seed, tier):
     s = side_render(r, sides[0], sp)
     for o, sd in zip(ops, sides[1:]):
         s += (" %s " % o if sp or r.random() < 0.5 else o) + side_render(r, sd, sp)
-    return {"op": "parse", "kind": kind, "string": s, "sides": sides, "ops": ops}
+    return {"op": "parse", "kind": kind, "string": s, "sides": [flatten_side(sd) for sd in sides], "ops": ops}
 
 
 def _z_lin(items, env):
